@@ -7,5 +7,7 @@ def run(ctx):
     tier = 'thorough' if ctx.tier == 'thorough' else 'quick'
     # non-vacuity of the oracle's own invariant: a classifier that says ok without an address breaks RedirectHasAddr
     accesscommon.negative(ctx, 'MC_neg_redirect.cfg', 'RedirectHasAddr')
+    # round 2: a helper allowed to return a value although one component of its reply is malformed breaks CompNeverValue
+    accesscommon.negative(ctx, 'MC_neg_complenient.cfg', 'CompNeverValue')
     r = accesscommon.generate(ctx, 'Gen_c15_%s.cfg' % tier)
     accesscommon.replay(ctx, r)
